@@ -346,6 +346,25 @@ def deep_case(res, depth, label):
     res.failures.append(Failure(None, f"C02 {label}: depth {depth} built to depth {d}", {"depth": depth}))
 
 
+def plant_nan(rng, root):
+  """A value that is not equal to itself (float('nan')) as an argument of some Buildables - preferably
+  shared ones: memoization is by identity, whatever == says."""
+  bs = [x for x in reachable(root) if isinstance(x, config_lib.Buildable)
+        and not isinstance(x, config_lib.TaggedValueCls)]
+  refs = {}
+  for x in reachable(root):
+    for c in children_of(x):
+      refs[id(c)] = refs.get(id(c), 0) + 1
+  shared = [b for b in bs if refs.get(id(b), 0) > 1]
+  for b in (rng.sample(shared, min(2, len(shared))) or bs[:1]):
+    names = [p[0] for p in l2.sig_params(b.__fn_or_cls__) if p[1] in ("PosOrKw", "KwOnly")]
+    if names:
+      try:
+        setattr(b, rng.choice(names), float("nan"))
+      except (AttributeError, TypeError):
+        pass
+
+
 def run(tier: str, seed: int) -> Result:
   rng = random.Random(seed * 15485863 + 2)
   res = Result()
@@ -362,6 +381,8 @@ def run(tier: str, seed: int) -> Result:
   for i in range(n):
     size = rng.randint(1, 25) if (tier == "quick" or rng.random() < 0.9) else rng.randint(25, 120)
     root, _ = l2.gen_dag(rng, size)
+    if rng.random() < 0.15:
+      plant_nan(rng, root)
     one_case(rng, res, intern, stream, root, f"dag#{i}")
   for i in range(10 if tier == "quick" else 200):
     temporaries_case(rng, res, f"temp#{i}")
